@@ -404,32 +404,33 @@ def oracle(ctx, pairs, seed_base=0):
     for i, p in enumerate(pairs):
         fam[p.family] = fam.get(p.family, 0) + 1
         k = '%d->%d' % (G.atm_code(p.src), G.atm_code(p.dst)); atm[k] = atm.get(k, 0) + 1
-        r1 = O.check_mapping(ctx, p.case, p.src, p.dst)
+        r1 = O.guarded(ctx, 'block-mapping', p.case, O.check_mapping, ctx, p.case, p.src, p.dst)
         if r1 is not None and p.src.num_blocks + p.dst.num_blocks <= 4000: firsts.append((i, r1))
-        O.check_self_identity(ctx, p.case, 'src' if i % 2 else 'dst', p.src if i % 2 else p.dst)
+        O.guarded(ctx, 'self-mapping-identity', p.case, O.check_self_identity, ctx, p.case, 'src', p.src)
+        O.guarded(ctx, 'self-mapping-identity', p.case, O.check_self_identity, ctx, p.case, 'dst', p.dst)
         if i < 6: ctx.sample({'family': p.family, 'source': '%d cols x %d layers, atm %d, conv %d' % (
             p.src.num_columns, p.src.num_layers - 1, G.atm_code(p.src), p.src.convention),
             'target': '%d cols x %d layers, atm %d, conv %d' % (p.dst.num_columns, p.dst.num_layers - 1, G.atm_code(p.dst), p.dst.convention)})
         big = p.src.num_blocks + p.dst.num_blocks > 30000
         if not big or i % 3 == 0:
             case = {'kind': 'incon', 'src': p.sspec, 'dst': p.dspec, 'nvar': 1 + (i + seed_base) % 6, 'vseed': seed_base + i}
-            O.check_incon(ctx, case, p.src, p.dst, ctx.repo)
+            O.guarded(ctx, 'incon-transfer', case, O.check_incon, ctx, case, p.src, p.dst, ctx.repo)
             if not big:      # the same with the source populated through `inc.variable = array` (blocks hold views of the caller's array)
-                O.check_incon(ctx, dict(case, populate='array'), p.src, p.dst, ctx.repo)
+                O.guarded(ctx, 'incon-transfer', dict(case, populate='array'), O.check_incon, ctx, dict(case, populate='array'), p.src, p.dst, ctx.repo)
             if O.atm_finding_class(p.src, p.dst):
-                O.check_incon(ctx, dict(case, explicit=True), p.src, p.dst, ctx.repo)
+                O.guarded(ctx, 'incon-transfer', dict(case, explicit=True), O.check_incon, ctx, dict(case, explicit=True), p.src, p.dst, ctx.repo)
         if p.src.num_blocks <= 4000:
             case = {'kind': 'generators', 'geo': p.sspec, 'gseed': seed_base + i, 'rename': bool(i & 1), 'preserve': bool(i & 2),
                     'all_columns': p.src.num_columns <= 120}      # a top and a bottom generator in EVERY column of small geometries
-            O.check_generators_identity(ctx, case, p.src, O.identical_copy(p.sspec, p.src, ctx.repo))
+            O.guarded(ctx, 'generator-transfer-identity', case, O.check_generators_identity, ctx, case, p.src, O.identical_copy(p.sspec, p.src, ctx.repo))
         if p.dst.num_blocks <= 4000 and p.family != 'identical':
             # ... and of the target geometry (often the refined / re-surfaced one of the pair)
             case = {'kind': 'generators', 'geo': p.dspec, 'gseed': seed_base + 4000 + i, 'rename': bool(i & 2), 'preserve': bool(i & 1),
                     'all_columns': p.dst.num_columns <= 120}
-            O.check_generators_identity(ctx, case, p.dst, O.identical_copy(p.dspec, p.dst, ctx.repo))
+            O.guarded(ctx, 'generator-transfer-identity', case, O.check_generators_identity, ctx, case, p.dst, O.identical_copy(p.dspec, p.dst, ctx.repo))
         if p.src.num_blocks + p.dst.num_blocks <= 4000:
             case = {'kind': 'data', 'src': p.sspec, 'dst': p.dspec, 'gseed': seed_base + 900 + i, 'rename': bool(i & 1), 'preserve': bool(i & 2)}
-            r = O.check_data_transfer(ctx, case, p.src, p.dst)
+            r = O.guarded(ctx, 'model-transfer', case, O.check_data_transfer, ctx, case, p.src, p.dst)
             k = r or ('skipped: source without atmosphere blocks, target with' if G.atm_code(p.src) == 2 and G.atm_code(p.dst) != 2 else 'failed')
             ndata[k] = ndata.get(k, 0) + 1
         if p.src.num_blocks + p.dst.num_blocks <= 4000:
@@ -443,13 +444,15 @@ def oracle(ctx, pairs, seed_base=0):
                     'then_src': (sn if sn and i % 4 == 3 else (rl if i % 8 == 5 else [ms[i % len(ms)]])), 'then_dst': ([rl[0], ['surface', {c.name: rl[0][2] for c in d2.columnlist}]] if i % 8 == 5 and not (sn and i % 4 == 3)
                                  else ([md[(i // 3) % len(md)]] if (i // 3) % 4 else [])),
                     'nvar': 1 + i % 6, 'vseed': seed_base + i}
-            O.check_sequence(ctx, case, s2, d2, ctx.repo)
+            if case['then_src'][0][0] == 'translate' and case['then_src'][0][1][2] != 0. and not case['then_dst'] and i % 2:
+                case['then_dst'] = [['translate', [0., 0., case['then_src'][0][1][2]]]]      # the target moves up/down with the source
+            O.guarded(ctx, 'statement-after-in-place-moves', case, O.check_sequence, ctx, case, s2, d2, ctx.repo)
             kseq = '+'.join(o[0] for o in case['then_src']); nseq[kseq] = nseq.get(kseq, 0) + 1
     # second pass, shuffled: the same objects mapped again after everything else happened in this process
     order = list(range(len(firsts))); random.Random(4711 + seed_base).shuffle(order)
     for j in order:
         i, r1 = firsts[j]
-        O.check_repeat(ctx, pairs[i].case, pairs[i].src, pairs[i].dst, first=r1)
+        O.guarded(ctx, 'block-mapping', pairs[i].case, O.check_repeat, ctx, pairs[i].case, pairs[i].src, pairs[i].dst, first=r1)
     ctx.oracle_cases('block-mapping-second-pass-shuffled', len(order))
     ctx.oracle_cases('block-mapping', len(pairs), families=fam, atmosphere_source_to_target=atm)
     ctx.oracle_cases('self-mapping-identity', len(pairs))
